@@ -62,9 +62,9 @@ var StringTokens = []string{
 	"\"\xff\"",
 }
 
-var ArrayTokens = []string{"[]", "[ ]", "[1]", "[1,2]", "[ 1 , 2 ]", "[[]]", `["a"]`, `[{}]`}
+var ArrayTokens = []string{"[]", "[ ]", "[1]", "[1,2]", "[ 1 , 2 ]", "[[]]", `["a"]`, `[{}]`, `[ true , "a" , null , [] , {} , 1.5 ]`}
 
-var ObjectTokens = []string{"{}", "{ }", `{"a":1}`, `{"a":1,"b":2}`, `{ "a" : 1 }`, `{"a":{}}`, `{"a":[]}`, `{"\n":1}`, `{"a":"b"}`}
+var ObjectTokens = []string{"{}", "{ }", `{"a":1}`, `{"a":1,"b":2}`, `{ "a" : 1 }`, `{"a":{}}`, `{"a":[]}`, `{"\n":1}`, `{"a":"b"}`, `{ "a" : true , "b" : "s" , "c" : [] , "d" : {} , "e" : null , "f" : 2 }`}
 
 var ReducedTokens = []string{"null", "true", "-12", "0.5", "1e+5", `"a\nb"`, `"\u00e9\ud83d\ude00"`, "[1,2]", `{"a":1}`, "[]", "{}"}
 
@@ -86,6 +86,12 @@ func allTokens() []string {
 	t = append(t, ObjectTokens...)
 	return t
 }
+
+// TopLevelSeeds is the number of leading W1 seeds in which the token is the first value of the
+// input (the three top-level contexts).
+func TopLevelSeeds() int { return topLevelSeeds }
+
+var topLevelSeeds = 3 * len(allTokens())
 
 // Seeds returns the W1 seed documents (contexts x tokens, strings in key position, long seeds).
 func Seeds() []string {
@@ -118,12 +124,15 @@ func ReducedSeeds() []string {
 	return out
 }
 
-// ClassBytes holds one representative per transition class of the machines plus class
-// boundaries: 48 bytes.
+// ClassBytes holds one representative per transition class of the machines plus both
+// neighbours of every class boundary (the bytes just outside JSON whitespace, digits, hex
+// letters, structural characters): 64 bytes. 0x0b and 0x0e were added after the mechanical
+// mutation survey found a '<= 10' -> '<= 11' whitespace mutant that only 0x0b exposes.
 var ClassBytes = []byte{
-	0x00, 0x08, 0x09, 0x0a, 0x0c, 0x0d, 0x1f, 0x20, '!', '"', '+', ',', '-', '.', '/', '0',
-	'1', '9', ':', 'A', 'E', 'F', 'G', 'Z', '[', '\\', ']', 'a', 'b', 'e', 'f', 'g',
-	'l', 'n', 'r', 's', 't', 'u', 'x', '{', '}', 0x7f, 0x80, 0xbf, 0xc2, 0xe0, 0xf0, 0xff,
+	0x00, 0x01, 0x08, 0x09, 0x0a, 0x0b, 0x0c, 0x0d, 0x0e, 0x1f, 0x20, '!', '"', '#', '*', '+',
+	',', '-', '.', '/', '0', '1', '5', '9', ':', ';', '@', 'A', 'E', 'F', 'G', 'N',
+	'T', 'Z', '[', '\\', ']', '^', '`', 'a', 'b', 'e', 'f', 'g', 'l', 'n', 'r', 's',
+	't', 'u', 'x', 'z', '{', '|', '}', '~', 0x7f, 0x80, 0xbf, 0xc2, 0xe0, 0xef, 0xf0, 0xff,
 }
 
 var allBytes = func() []byte {
